@@ -68,6 +68,13 @@ def judge_c04(res, cases, runs, models, configs):
                     stop = True
             if stop:
                 break
+            # a step on which property C01 itself fails identically in both kernels (oracle finding, or an error on a
+            # call numpy accepts) is C01's business: the kernels agree, the model describes the repaired behaviour
+            c01_issue = any(r.get('oracle') or ('error' in r.get('res', {}) and st.get('sure') and r.get('numpy_accepts'))
+                            for r in (rc, rp))
+            if c01_issue:
+                res.count(f'c01_finding_seen={name}')
+                break
             for cfg, r, m in (('cy', rc, mc), ('py', rp, mp)):
                 if m is None or 'steps' not in m:
                     continue
